@@ -5,6 +5,8 @@ The real PlateSlicer.get_volumes / get_moles / get_substances (and the Plate met
 on a plate of concrete shape (2 x 3) whose wells are symbolic containers with contents maps of arbitrary size; the result
 arrays are compared cell by cell with the definition over that well's contents.  Observers write nothing (frame) and hand
 out new objects.  Bounded in the plate shape and selector geometry; unbounded in contents, substances and units."""
+from fractions import Fraction
+
 import z3
 
 from pyvc import vc, spec
@@ -15,7 +17,7 @@ from pyvc.symcoll import SymSubSet
 from contracts import clib, plate_ops as PO
 
 FUNCTIONS = ['PlateSlicer.get_volumes', 'PlateSlicer.get_moles', 'PlateSlicer.get_substances', 'Plate.get_volumes',
-             'Plate.get_moles', 'Plate.get_substances']
+             'Plate.get_moles', 'Plate.get_substances', 'Plate.get_volume', 'Container.get_substances']
 GEOMS = ('plate', 'all', 'row1', 'rect', 'col2', 'list2')
 VUNITS = (None, 'uL', 'mL', 'L', 'nL')
 MUNITS = ('mol', 'umol', 'mmol')
@@ -39,6 +41,11 @@ def tasks(tier):
             t.append(('moles', g, 'umol', 'pair12'))
             t.append(('moles', g, 'mmol', 'pair13'))
         t.append(('substances', g))
+    # Plate.get_volume: the total of the plate, in every unit spelling (the default unit included)
+    for u in ('DEFAULT', 'uL', 'mL', 'L', 'nL'):
+        t.append(('total_volume', 'plate', u))
+    # Container.get_substances: the set of the container's own substances, a new set
+    t.append(('container_substances', 'plate'))
     return t
 
 
@@ -156,6 +163,44 @@ def run(pid, what, g, *args):
                 I.oblige(f'def[moles {r},{c}]', real(x) == B.rnd(z3.IntVal(prec), want), 'property',
                          note=f'cell of well {r},{c} is the rounded definition')
             return out
+        if what == 'total_volume':
+            (unit,) = args
+            dunit = 'uL' if unit == 'DEFAULT' else unit          # documented default of Plate.get_volume
+            p_, b_ = spec.split_unit(dunit)
+            prec = prec_of(I, dunit)
+            out = vc.call(I, 'Plate.get_volume', [P] if unit == 'DEFAULT' else [P, unit])
+            I.oblige('frame', len(I.writes) == 0, 'property', note=f'writes: {[(PO.describe(w[0]), w[1]) for w in I.writes[:3]]}')
+            if out.kind != 'return':
+                I.oblige('safe', False, 'property', note=f'{out.exc.cls} at line {out.exc.lineno}')
+                return out
+            if not is_num(out.value):
+                I.oblige('def[total]', False, 'property', note=f'result {out.value!r}')
+                return out
+            total = z3.RealVal(0)
+            for w in wells:
+                total = total + real(w.fields['volume']) * vs / spec.num(spec.SI[p_])
+            half = Q(Fraction(len(wells), 2) / Fraction(10) ** prec)
+            got = real(out.value)
+            # by definition: the sum of the wells' volumes, to the displayed precision of each well
+            I.oblige('def[total volume]', z3.And(got - total <= half, total - got <= half), 'property',
+                     note='total volume of the plate = sum over its wells of the volume of the well, each to the displayed precision')
+            return out
+        if what == 'container_substances':
+            w0 = wells[0]
+            out = vc.call(I, 'Container.get_substances', [w0])
+            I.oblige('frame', len(I.writes) == 0, 'property', note=f'writes: {[(PO.describe(w[0]), w[1]) for w in I.writes[:3]]}')
+            if out.kind != 'return':
+                I.oblige('safe', False, 'property', note=f'{out.exc.cls} at line {out.exc.lineno}')
+                return out
+            v = out.value
+            x = z3.Const('x!obs', Sub)
+            if isinstance(v, SymSubSet):
+                I.oblige('def[substances]', v.mem[x] == w0.fields['contents'].mem[x], 'property',
+                         note='a substance is listed iff the container holds it')
+                I.oblige('fresh[result]', v is not w0.fields['contents'], 'property')
+            else:
+                I.oblige('def[substances]', False, 'property', note=f'result {v!r}')
+            return out
         # substances
         out = vc.call(I, 'Plate.get_substances' if on_plate else 'PlateSlicer.get_substances', [target])
         I.oblige('frame', len(I.writes) == 0, 'property', note=f'writes: {[(PO.describe(w[0]), w[1]) for w in I.writes[:3]]}')
@@ -177,5 +222,5 @@ def run(pid, what, g, *args):
         if isinstance(out, vc.Outcome) and out.kind == 'unsupported':
             res.append(vc.unsupported_result(f'plate.{what}/unsupported', case, out.note))
             continue
-        res += vc.discharge(I, f'plate.get_{what}/', case, 15000, ladder=clib.ladder)
+        res += vc.discharge(I, {'total_volume': 'Plate.get_volume/', 'container_substances': 'Container.get_substances/'}.get(what, f'plate.get_{what}/'), case, 15000, ladder=clib.ladder)
     return [dict(r, name=f'{pid}/' + r['name']) for r in clib.dedupe(res)]
